@@ -33,7 +33,8 @@ for c in cases:
     for stmt in re.findall(r'From\s+VV\s+Require\s+(?:Import\s+|Export\s+)?((?:[A-Za-z_][\w\']*(?:\.[A-Za-z_][\w\']*)*\s*)+)\.(?:\s|$)', text):
         mods.update(stmt.split())
 targets = sorted(m.replace('.', '/') + '.vo' for m in mods)
-srcs = [t[:-1] for t in targets if not t.startswith('Lib/') and os.path.exists(f'{V}/coq/{t[:-1]}')]
+srcs = [t[:-1] for t in targets if not t.startswith('Lib/') and os.path.exists(f'{V}/coq/{t[:-1]}')
+        and not re.search(r'(Replay|Check|TextCheck|Lits|Pack)\.v$', t[:-1])]    # checker / literal helpers, not models
 # transitive: models imported by those (same directory family), not proofs
 def deps(src):
     out = set()
@@ -81,7 +82,7 @@ for src in srcs:
         return name
     # the comparison / checking functions the cases files call are the CHECKER, not the model:
     # a laxer comparison survives trivially and says nothing about the tie
-    checker = re.compile(r'(check|eqb|_eq$|same|close|agree|compare|diagnose|bad_|verdict$|_ok$|final_ok)', re.I)
+    checker = re.compile(r'(check|eqb|_eq$|same|close|agree|compare|diagnose|bad_|_ok$|final_ok|run_ops|writes_ok|replay|expected_arg|all_workers_gone)', re.I)
     for pat, rep in OPS:
         for m in re.finditer(pat, text):
             if mask[m.start()] and not inproof[m.start()] and not checker.search(enclosing(m.start())):
